@@ -127,6 +127,8 @@ func init() {
 		"runtime.SetFinalizer": nop,
 		"runtime.Gosched":      nop,
 		"time.Sleep":           nop,
+		"time.Now":             hTimeNow,
+		"(net/http.Header).Get": hHeaderGet,
 
 		// ---- logging / formatting (no-ops that still evaluated their arguments) ----
 		"log.Printf":   nop,
@@ -180,6 +182,34 @@ func init() {
 		"internal/bytealg.MakeNoZero": func(e *Exec, st *State, fv FuncV, a []Value, cc *ssa.CallCommon) Value {
 			n := int(e.concretize(st, a[0].(*Term), "MakeNoZero"))
 			return e.newSlice(st, types.Typ[types.Uint8], n, n)
+		},
+		"internal/abi.NoEscape": func(e *Exec, st *State, fv FuncV, a []Value, cc *ssa.CallCommon) Value { return a[0] },
+		"builtin:SliceData": func(e *Exec, st *State, fv FuncV, a []Value, cc *ssa.CallCommon) Value {
+			s := a[0].(SliceV)
+			if s.base.IsNil() {
+				return Ptr{}
+			}
+			return s.base.extend(Sel{k: s.off})
+		},
+		"builtin:String": func(e *Exec, st *State, fv FuncV, a []Value, cc *ssa.CallCommon) Value {
+			p := a[0].(Ptr)
+			n := int(e.concretize(st, a[1].(*Term), "unsafe.String length"))
+			if n == 0 {
+				return &StrV{}
+			}
+			if p.IsNil() || len(p.path) == 0 || p.path[len(p.path)-1].sym != nil {
+				panic(e.abort("unsafe.String on an unsupported pointer"))
+			}
+			k := p.path[len(p.path)-1].k
+			arr := e.load(st, Ptr{p.obj, p.path[:len(p.path)-1]}).(*ArrayV)
+			bs := make([]*Term, n)
+			for i := 0; i < n; i++ {
+				bs[i] = arr.e[k+i].(*Term)
+			}
+			return &StrV{bs}
+		},
+		"builtin:StringData": func(e *Exec, st *State, fv FuncV, a []Value, cc *ssa.CallCommon) Value {
+			panic(e.abort("unsafe.StringData"))
 		},
 		"unsafe.String": func(e *Exec, st *State, fv FuncV, a []Value, cc *ssa.CallCommon) Value {
 			panic(e.abort("unsafe.String"))
@@ -944,4 +974,49 @@ func hBytesCompare(e *Exec, st *State, fv FuncV, a []Value, cc *ssa.CallCommon) 
 	lt := e.strLess(x, y, false)
 	eq := e.strEq(x, y)
 	return e.c.Ite(eq, e.c.Const(64, 0), e.c.Ite(lt, e.c.Const(64, ^uint64(0)), e.c.Const(64, 1)))
+}
+
+// hTimeNow: contract stub for the clock: an arbitrary instant (no monotonic
+// reading), never earlier than the previous reading on this path.
+func hTimeNow(e *Exec, st *State, fv FuncV, a []Value, cc *ssa.CallCommon) Value {
+	st.stubCalls++
+	k := st.stubCalls
+	sec := e.c.Var(fmt.Sprintf("now#%d.sec", k), BV(64))
+	nsec := e.c.Var(fmt.Sprintf("now#%d.nsec", k), BV(32))
+	e.inputs[sec.name], e.inputs[nsec.name] = sec, nsec
+	// plausible range: years 1970..2200 in seconds since year 1
+	lo, hi := e.c.Const(64, 62135596800), e.c.Const(64, 62135596800+7258118400)
+	c := e.c.AndN(e.c.Cmp(OpUle, lo, sec), e.c.Cmp(OpUlt, sec, hi), e.c.Cmp(OpUlt, nsec, e.c.Const(32, 1000000000)))
+	if st.lastNow != nil {
+		ps, pn := st.lastNow[0], st.lastNow[1]
+		c = e.c.And(c, e.c.Or(e.c.Cmp(OpUlt, ps, sec), e.c.And(e.c.Eq(ps, sec), e.c.Cmp(OpUle, pn, nsec))))
+	}
+	st.pc = append(st.pc, c)
+	st.model = nil
+	st.lastNow = []*Term{sec, nsec}
+	e.res.noteOnce("stub(contract): time.Now returns an arbitrary non-decreasing instant")
+	return &StructV{[]Value{e.c.Zext(64, nsec), sec, Ptr{}}}
+}
+
+// hHeaderGet: http.Header.Get as a lookup of an (already canonical) key.
+func hHeaderGet(e *Exec, st *State, fv FuncV, a []Value, cc *ssa.CallCommon) Value {
+	m := a[0].(MapV)
+	key := e.cstr(a[1])
+	e.res.noteOnce("model: http.Header.Get is a map lookup of the canonical key " + key)
+	if m.obj == 0 {
+		return &StrV{}
+	}
+	for _, en := range e.mapObj(st, m).entries {
+		if ks, ok := en.k.(*StrV); ok {
+			if cs, ok := strConcrete(ks); ok && cs == key {
+				sl := en.v.(SliceV)
+				n := int(e.concretize(st, sl.len, "header values"))
+				if n == 0 {
+					return &StrV{}
+				}
+				return e.load(st, e.sliceElemPtr(sl, e.c.Const(64, 0)))
+			}
+		}
+	}
+	return &StrV{}
 }
